@@ -150,14 +150,14 @@ theorem split_default (h : Str) (hok : HostOK h) (dflt : Option Nat) :
 /-- a URI built from scheme, host, optional port and parameters parses back to exactly these parts -/
 theorem uri_roundtrip (sch h : Str) (p : Option Nat) (args : Args) (hs : SchemeOK sch) (hok : HostOK h)
     (hp : ∀ q, p = some q → q ≤ 65535) (ha : ArgsOK args) :
-    parseUri (fromParts sch h p args) = some ⟨sch, some h, some p, args⟩ :=
+    parseUri (fromParts sch h p args) = some ⟨sch, some h, some p, [], args⟩ :=
   parseUri_fromParts sch h p args hs hok hp ha
 
 /-- `qs_flat` of a written query is the written parameter list (distinct keys, non-blank values) -/
 theorem qsFlat_roundtrip (args : Args) (ha : ArgsOK args) : qsFlat (queryOf args) = args := qsFlat_queryOf args ha
 
 /-- first occurrence of a repeated key wins, blank values are dropped -/
-example : qsFlat ['a', '=', '1', '&', 'a', '=', '2', '&', 'b', '=', '&', 'c'] = [(['a'], ['1'])] := by decide
+example : qsFlat ['a', '=', '1', '&', 'a', '=', '2', '&', 'b', '=', '&', 'c'] = [(['a'], ['1'])] := by decide +kernel
 
 /-! ## the transports accept what was written, with the same numbers -/
 
@@ -165,29 +165,29 @@ example : qsFlat ['a', '=', '1', '&', 'a', '=', '2', '&', 'b', '=', '&', 'c'] = 
     the URI built by `from_parts` -/
 theorem config_accepts_doip (h : Str) (hok : HostOK h) (p : Option Nat) (hp : ∀ q, p = some q → q ≤ 65535)
     (s1 : Spelling) (src : Int) (s2 : Spelling) (tgt : Int) (act ver : Option (Spelling × Int))
-    (h1 : s1.UrlSafe) (h2 : s2.UrlSafe) (ha : optOK act) (hv : optOK ver) :
+    (h1 : s1.WF) (h2 : s2.WF) (ha : optOK act) (hv : optOK ver) :
     (parseUri (fromParts ['d', 'o', 'i', 'p'] h p (doipArgs s1 src s2 tgt act ver))).bind (fun u => doipConfig u.args)
       = some ⟨src, tgt, act.map (·.2), ver.map (·.2)⟩ := by
-  rw [parseUri_fromParts _ h p _ ⟨⟨'d', _, rfl, by decide⟩, by decide⟩ hok hp (argsOK_doip s1 src s2 tgt act ver h1 h2 ha hv)]
+  rw [parseUri_fromParts _ h p _ ⟨⟨'d', _, rfl, by decide⟩, by decide⟩ hok hp (argsOK_doip s1 src s2 tgt act ver)]
   exact doipConfig_args s1 src s2 tgt act ver h1 h2 ha hv
 
 /-- HSFZ, as the discoverer writes it (`ack_timeout` in decimal) -/
 theorem config_accepts_hsfz (h : Str) (hok : HostOK h) (p : Option Nat) (hp : ∀ q, p = some q → q ≤ 65535)
-    (s1 : Spelling) (src : Int) (s2 : Spelling) (dst : Int) (ack : Option Nat) (h1 : s1.UrlSafe) (h2 : s2.UrlSafe) :
+    (s1 : Spelling) (src : Int) (s2 : Spelling) (dst : Int) (ack : Option Nat) (h1 : s1.WF) (h2 : s2.WF) :
     (parseUri (fromParts ['h', 's', 'f', 'z'] h p (hsfzArgs s1 src s2 dst ack))).bind (fun u => hsfzConfig u.args)
       = some ⟨src, dst, ack.map (fun n => (n : Int))⟩ := by
-  rw [parseUri_fromParts _ h p _ ⟨⟨'h', _, rfl, by decide⟩, by decide⟩ hok hp (argsOK_hsfz s1 src s2 dst ack h1 h2)]
+  rw [parseUri_fromParts _ h p _ ⟨⟨'h', _, rfl, by decide⟩, by decide⟩ hok hp (argsOK_hsfz s1 src s2 dst ack)]
   exact hsfzConfig_args s1 src s2 dst ack h1 h2
 
 /-- ISO-TP, as the discoverer writes it (booleans as `true` / `false`, optional extended addresses and padding) -/
 theorem config_accepts_isotp (h : Str) (hok : HostOK h) (fd ext : Bool)
     (s1 : Spelling) (src : Int) (s2 : Spelling) (dst : Int) (ea ra tp rp : Option (Spelling × Int))
-    (h1 : s1.UrlSafe) (h2 : s2.UrlSafe) (hea : optOK ea) (hra : optOK ra) (htp : optOK tp) (hrp : optOK rp) :
+    (h1 : s1.WF) (h2 : s2.WF) (hea : optOK ea) (hra : optOK ra) (htp : optOK tp) (hrp : optOK rp) :
     (parseUri (fromParts ['i', 's', 'o', 't', 'p'] h none (isotpArgs fd ext s1 src s2 dst ea ra tp rp))).bind
         (fun u => isotpConfig u.args)
       = some ⟨src, dst, some ext, some fd, none, ea.map (·.2), ra.map (·.2), tp.map (·.2), rp.map (·.2), none⟩ := by
   rw [parseUri_fromParts _ h none _ ⟨⟨'i', _, rfl, by decide⟩, by decide⟩ hok (fun q hq => by cases hq)
-    (argsOK_isotp fd ext s1 src s2 dst ea ra tp rp h1 h2 hea hra htp hrp)]
+    (argsOK_isotp fd ext s1 src s2 dst ea ra tp rp)]
   exact isotpConfig_args fd ext s1 src s2 dst ea ra tp rp h1 h2 hea hra htp hrp
 
 /-- a missing required address or an unreadable number is refused -/
